@@ -652,9 +652,11 @@ Definition flush_with (body : list nat -> list nat -> list nat -> M) : M := fun 
 Definition flush : M := flush_with flush_exec.
 
 (* refresh of expired attributes outside the flush: autoflush, connection, SELECT *)
+Definition load_row_attached (o : nat) : M := fun st =>
+  if oatt (objs st o) then load_row o st else (Unmodelled, st).   (* the autoflush does not detach objects *)
 Definition load_expired (o : nat) : M := fun st =>
   if negb (oatt (objs st o)) then (Err E_DETACHED, st)
-  else (flush ;; connection ;; load_row o) st.
+  else (flush ;; connection ;; load_row_attached o) st.
 
 (* ------------------------------------------------------------------ commit / rollback *)
 Fixpoint flush_loop (n : nat) : M := fun st =>
